@@ -81,3 +81,8 @@ Print Assumptions teardown_runs_everything_exactly_once_src.
 Theorem shutdown_order_src : sdlist_eqb shutdown_steps_src shutdown_ref = true /\ dtor_shuts_down_src = true.
 Proof. exact src_shutdown_order. Qed.
 Print Assumptions shutdown_order_src.
+
+(* SplitAndAddTask: WakeThreads follows EVERY successful write into the pipe, unconditionally (extracted) *)
+Theorem schedule_internal_wake_every_push_src : forall n workers, stranded wake_policy_src n workers = 0%nat.
+Proof. exact src_wake_every_push. Qed.
+Print Assumptions schedule_internal_wake_every_push_src.
